@@ -494,6 +494,10 @@ long long c_intersect(long long nrows, long long ncols,
         /* If not found in existsting cells, add a new cell */
         if(k==j)
         {
+            /* Check the capacity of the output vectors */
+            if(j>=ncells)
+                return GRID_ERROR + __LINE__;
+
             idxcells[j] = *idxcell;
             weights[j] = areafactor;
             j++;
